@@ -25,7 +25,7 @@ deriving Repr, BEq, DecidableEq
 structure KeyDef where
   hash : Bytes × Bytes                  -- attribute name, attribute type
   range : Option (Bytes × Bytes) := none
-deriving Repr, Inhabited
+deriving Repr, Inhabited, BEq
 
 structure IndexDef where
   name : Bytes
@@ -113,7 +113,7 @@ structure Client where
   tables : List (Bytes × Table) := []
   failure : Option Failure := none
   useNative : Bool := false
-  matchers : List ((ExprKind × Bytes) × Nat) := []     -- (kind, table|normalised text) ↦ call-back id
+  matchers : List (Bytes × Nat) := []     -- kind byte :: table|normalised text ↦ call-back id
   updaters : List (Bytes × Nat) := []
 deriving Repr, Inhabited
 
@@ -173,6 +173,12 @@ def validateExprAttrs (ex : Exprs) (exprs : List Bytes) : Bool :=
 
 def nativeKey (table expr : Bytes) : Bytes := table ++ [124] ++ Interp.normWS expr
 
+/-- the four registries of `interpreter.Native` are one map here, the kind being part of the key -/
+def kindByte : ExprKind → Nat
+  | .key => 107 | .filter => 102 | .cond => 99
+
+def matcherKey (kind : ExprKind) (table expr : Bytes) : Bytes := kindByte kind :: nativeKey table expr
+
 def ierrClass : IErr → String
   | .syntax => "Syntax"
   | .unsupported => "Unsupported"
@@ -191,7 +197,7 @@ def matcher (c : Client) (table : Bytes) (ex : Exprs) : Matcher := fun kind expr
     | .ok b => .ok b
     | .error e => .panic (ierrClass e)
   if c.useNative then
-    match c.matchers.lookup (kind, nativeKey table expr) with
+    match alookup (matcherKey kind table expr) c.matchers with
     | some id => .ok (matcherVerdict id item)
     | none => lang
   else lang
@@ -199,7 +205,7 @@ def matcher (c : Client) (table : Bytes) (ex : Exprs) : Matcher := fun kind expr
 /-- `Table.interpreterUpdate`; the harness's updater `id` sets attribute `nat` to the id -/
 def updater (c : Client) (table : Bytes) (expr : Bytes) (ex : Exprs) : Table.Updater := fun item =>
   if c.useNative then
-    match c.updaters.lookup (nativeKey table expr) with
+    match alookup (nativeKey table expr) c.updaters with
     | some id => .ok (ainsert [110, 97, 116] (.s (Bytes.ofNat id)) item)
     | none => .error "Unsupported"
   else
@@ -252,32 +258,43 @@ def defsOf (k : KeyDef) : List (Bytes × Bytes) :=
 
 def isPPR (t : Table) : Bool := t.billing == Bytes.ofString "PAY_PER_REQUEST"
 
-def createTable (c : Client) (r : CreateTable) : Client × Out :=
-  if ahas r.table c.tables then (c, .err .resourceInUse none) else
+/-- `input != nil && len(input) == 0` -/
+def presentButEmpty {α} : Option (List α) → Bool
+  | some [] => true
+  | _ => false
+
+/-- add the indexes one after the other; the first one that is rejected rejects the table -/
+def addIndexes (f : Table → IndexDef → Option Table) : List IndexDef → Table → Option Table
+  | [], t => some t
+  | d :: ds, t =>
+    match f t d with
+    | none => none
+    | some t' => addIndexes f ds t'
+
+/-- the table a CreateTable request describes (`none`: ValidationException):
+    `SetAttributeDefinition`, `CreatePrimaryIndex`, `AddGlobalIndexes`, `AddLocalIndexes` -/
+def baseTable (r : CreateTable) : Table :=
   let allDefs := defsOf r.key ++ ((r.gsi.getD []) ++ (r.lsi.getD [])).flatMap (fun d => defsOf d.key)
-  let attrs := allDefs.foldl (fun acc (n, ty) => ainsert n ty acc) []
-  let ks := schemaOf r.key false
-  let t : Table := { name := r.table, schema := ks, attrs := attrs,
-                     billing := if r.payPerRequest then Bytes.ofString "PAY_PER_REQUEST" else Bytes.ofString "PROVISIONED" }
-  -- CreatePrimaryIndex
-  if ks.hash.isEmpty then (c, .err .validation none)
-  else if !attrsDefined t ks then (c, .err .validation none)
-  else if !r.payPerRequest && !r.throughput then (c, .err .validation none)
-  else
-    -- AddGlobalIndexes
-    match r.gsi with
-    | some [] => (c, .err .validation none)
-    | gsi =>
-      let t1 := (gsi.getD []).foldl (fun (acc : Option Table) d => acc.bind fun t => addGlobalIndex t r.payPerRequest d) (some t)
-      match t1 with
-      | none => (c, .err .validation none)
-      | some t1 =>
-        match r.lsi with
-        | some [] => (c, .err .validation none)
-        | lsi =>
-          match (lsi.getD []).foldl (fun (acc : Option Table) d => acc.bind fun t => addLocalIndex t d) (some t1) with
-          | none => (c, .err .validation none)
-          | some t2 => ({ c with tables := ainsert r.table t2 c.tables }, .describe (describe t2))
+  { name := r.table, schema := schemaOf r.key false,
+    attrs := allDefs.foldl (fun acc (n, ty) => ainsert n ty acc) [],
+    billing := if r.payPerRequest then Bytes.ofString "PAY_PER_REQUEST" else Bytes.ofString "PROVISIONED" }
+
+def addAllIndexes (r : CreateTable) (t : Table) : Option Table :=
+  match addIndexes (fun t d => addGlobalIndex t r.payPerRequest d) (r.gsi.getD []) t with
+  | none => none
+  | some t1 => addIndexes addLocalIndex (r.lsi.getD []) t1
+
+def buildTable (r : CreateTable) : Option Table :=
+  let t := baseTable r
+  if t.schema.hash.isEmpty || !attrsDefined t t.schema || (!r.payPerRequest && !r.throughput) then none
+  else if presentButEmpty r.gsi || presentButEmpty r.lsi then none
+  else addAllIndexes r t
+
+def createTable (c : Client) (r : CreateTable) : Client × Out :=
+  if ahas r.table c.tables then (c, .err .resourceInUse none)
+  else match buildTable r with
+    | none => (c, .err .validation none)
+    | some t => ({ c with tables := ainsert r.table t c.tables }, .describe (describe t))
 
 /-- `UpdateTable`: attribute definitions of the created indexes are merged first, then
     the changes are applied in order; a failing change stops the call, earlier ones stay -/
@@ -470,10 +487,8 @@ def step (c : Client) : Op → Client × Out
   | .setFailure f => ({ c with failure := f }, .ok)
   | .activateNative => ({ c with useNative := true }, .ok)
   | .setInterpreter => ({ c with matchers := [], updaters := [] }, .ok)
-  | .registerMatcher t kind expr id =>
-    ({ c with matchers := ((kind, nativeKey t expr), id) :: c.matchers.filter (fun p => p.1 != (kind, nativeKey t expr)) }, .ok)
-  | .registerUpdater t expr id =>
-    ({ c with updaters := (nativeKey t expr, id) :: c.updaters.filter (fun p => p.1 != nativeKey t expr) }, .ok)
+  | .registerMatcher t kind expr id => ({ c with matchers := ainsert (matcherKey kind t expr) id c.matchers }, .ok)
+  | .registerUpdater t expr id => ({ c with updaters := ainsert (nativeKey t expr) id c.updaters }, .ok)
 
 def run (c : Client) : List Op → Client × List Out
   | [] => (c, [])
